@@ -157,6 +157,16 @@ func genC17Pack(g *G) {
 			g.L("corpus-len").run(fmt.Sprintf("pk.seq c:%d.1:%d.2:%d", n/3, n, n%2))
 		}
 	}
+	// every body length around the multiples of the chunk size (the packer chunks its own signalling messages): the stream
+	// name makes the publish body sweep 4096 and 8192, the tcUrl the connect body
+	for _, base := range []int{4096, 8192, 12288} {
+		for d := -70; d <= 10; d++ {
+			g.L("corpus-chunk-multiple").run(fmt.Sprintf("pk.seq P:3.0:%d.0:1", base+d))
+			if d%3 == 0 {
+				g.L("corpus-chunk-multiple").run(fmt.Sprintf("pk.seq c:4.1:%d.2:0", base+d-120))
+			}
+		}
+	}
 	for i := 0; i < g.scale(60, 1500); i++ {
 		g.L("grow-random").run(fmt.Sprintf("pkb.grow %d %d %d", r.Pick(0, 1, 7, 128, 256, 300), 0, r.Pick(r.Intn(3000), r.Around(128, 256, 512, 1024))))
 		var ops []string
